@@ -221,6 +221,16 @@ UNITS.append(Unit(ghost=True, cross_key=_key,
     inputs=[('value', CONSTS)],
     cases=[Case('a constant cell yields its value as an Excel value; nothing is written or evaluated', lambda v: True, _const_ok)],
     call=run(False, K_ADDR, behaviour='constant'), native_call=run(True, K_ADDR, behaviour='constant')))
+# the same contract under the properties whose functions are handed the VALUES of the addressed cells (the step from a stored constant to the
+# value a function sees lies between their statements and the functions themselves): a stored 0, 0.0, FALSE or any other constant arrives
+# as a Number / Boolean / Text OF THAT VALUE - never as a blank, never as another class
+for _p, _what in (('C14', 'an aggregate'), ('C15', 'a criterion or a lookup'), ('C10', 'IF / AND / OR / NOT')):
+    UNITS.append(Unit(ghost=True, cross_key=_key,
+        id=f'{_p}/evaluator.Evaluator.evaluate/constant_cell_value_reaches_the_function', target='xlcalculator.evaluator:Evaluator.evaluate', prop=_p,
+        inputs=[('value', CONSTS)],
+        cases=[Case(f'the value {_what} is handed for a constant cell is the stored constant as an Excel value of its own class - zero, 0.0, FALSE and the '
+                    'empty text included (never a blank for a stored number or boolean)', lambda v: True, _const_ok)],
+        call=run(False, K_ADDR, behaviour='constant'), native_call=run(True, K_ADDR, behaviour='constant')))
 UNITS.append(Unit(ghost=True, cross_key=_key,
     id='C05/evaluator.Evaluator.evaluate/missing_cell', target='xlcalculator.evaluator:Evaluator.evaluate', prop='C05', inputs=[],
     cases=[Case('an address without a cell reads as blank; nothing is written, no cell appears', lambda: True,
@@ -722,3 +732,77 @@ for _name, _fn, _sig, _lazy in _lazy_functions():
                     f'turned into a value but passes through', lambda: True,
                     lambda out: out.kind == 'ret' and out.value[0] == 'raised' and out.value[1] == 'RuntimeError' and out.value[2] == ('evaluated',))],
         call=_failing_thunk_call(False, _fn, _sig, _n), native_call=_failing_thunk_call(True, _fn, _sig, _n)))
+
+
+# ---- a REAL compiled tree evaluated twice: every node reads its operands at EVERY evaluation (no result kept on a node) -------------------------
+# The units above treat the compiled tree as an opaque collaborator.  Here the tree is the real one (built natively by the real parser from a
+# concrete formula text) and `node.eval(context)` is interpreted from source - OperatorNode / FunctionNode / RangeNode / OperandNode and the
+# operator functions behind them - twice over contexts that hand out SYMBOLIC input values v0, then v1: the second result is the formula's
+# value for v1.  A value cached on a node (a folded signed operand, a memoised call) makes the second evaluation repeat the first.
+TREE_FORMULAS = [
+    ('=-K1', lambda x: 0 - x), ('=+K1', lambda x: x), ('=-K1*50%', lambda x: (0 - x) * 0.5), ('=3*-K1', lambda x: 3 * (0 - x)), ('=2--K1', lambda x: 2 + x),
+    ('=-K1+K1*2', lambda x: x), ('=-(K1+1)', lambda x: 0 - (x + 1)), ('=K1-1', lambda x: x - 1), ('=-SUM(K1,1)', lambda x: 0 - (x + 1)),
+    ('=SUM(-K1,1)', lambda x: 1 - x), ('=--K1', lambda x: x),
+]
+
+
+def tree_call(native, text):
+    def call(it, fn, v0, v1):
+        from xlcalculator import parser
+        from xlcalculator.xlfunctions import xl
+        tree = parser.FormulaParser().parse(text, {})            # the real parser, natively, on the concrete text
+        box, log = [v0], []
+
+        def eval_cell(addr):
+            log.append(addr)
+            return box[0]
+
+        def mkctx():
+            if native:
+                ctx = type('Ctx', (), {})()
+                ctx.sheet = ctx.refsheet = K_ADDR.split('!')[0]
+                ctx.ref, ctx.ranges, ctx.cells, ctx.namespace = F_ADDR, {}, {}, xl.FUNCTIONS
+                ctx.eval_cell = eval_cell
+                ctx.set_sheet = lambda *a: None
+                return ctx
+            return Stub('ctx', sheet=K_ADDR.split('!')[0], refsheet=K_ADDR.split('!')[0], ref=F_ADDR, ranges={}, cells={}, namespace=xl.FUNCTIONS,
+                        eval_cell=ModelFn(lambda it_, a: eval_cell(a), 'eval_cell'), set_sheet=ModelFn(lambda it_, *a: None, 'set_sheet'))
+
+        def ev():
+            ctx = mkctx()                                            # a fresh context per evaluation, as Evaluator.evaluate makes one
+            return tree.eval(ctx) if native else it.call(type(tree).eval, [tree, ctx], {})
+        r1 = ev()
+        box[0] = v1
+        n1 = len(log)
+        r2 = ev()
+        return dict(r1=r1, r2=r2, reads1=log[:n1], reads2=log[n1:])
+    if native:
+        return lambda fn, *a: call(None, fn, *a)
+    return call
+
+
+def tree_ens(f):
+    class _Out:
+        kind = 'ret'
+
+        def __init__(self, v):
+            self.value = v
+
+    def ens(v0, v1, out):
+        if out.kind != 'ret':
+            return False
+        s = out.value
+        if not s['reads2'] or s['reads1'] != s['reads2'] or set(s['reads2']) != {K_ADDR}:
+            return False
+        return And(spec.numeric_result(_Out(s['r1']), f(v0.value), tol=1e-12), spec.numeric_result(_Out(s['r2']), f(v1.value), tol=1e-12))
+    return ens
+
+
+for _text, _f in TREE_FORMULAS:
+    UNITS.append(Unit(cross_key=lambda s: repr((s['r1'], s['r2'], s['reads2'])) if isinstance(s, dict) else repr(s),
+        id=f'C04/ast_nodes.eval/real_tree_evaluated_twice[{_text}]', target='xlcalculator.ast_nodes:OperatorNode.eval', prop='C04',
+        inputs=[('v0', Fork([Xl('Number', 'real', domain=[3.0, -2.5]), Xl('Number', 'int', domain=[3, 0])])), ('v1', Fork([Xl('Number', 'real', domain=[5.0, 0.5]), Xl('Number', 'int', domain=[5, -7])]))],
+        cases=[Case('the real compiled tree, evaluated again after its input changed, reads the input again and yields the value of the formula for the CURRENT '
+                    'input (nothing is kept on a node between evaluations)', lambda *a: True, tree_ens(_f))],
+        canary=Case('canary', lambda *a: True, (lambda f: lambda v0, v1, out: tree_ens(lambda x: f(x) + 1)(v0, v1, out))(_f)),
+        call=tree_call(False, _text), native_call=tree_call(True, _text), bounded_domain_cap=80))
